@@ -26,6 +26,7 @@ import (
 	"syscall"
 	"testing"
 	"time"
+	"unicode/utf8"
 
 	"github.com/ozontech/file.d/pipeline"
 	insaneJSON "github.com/ozontech/insane-json"
@@ -153,7 +154,8 @@ func TestVerifC19GelfStream(t *testing.T) {
 			svc, msg := fmt.Sprintf("host-%d", i), fmt.Sprintf("message %d \"quoted\" \\ back", i)
 			unit := fmt.Sprintf("%d.%d;", round, i)
 			pad := strings.Repeat(unit, (padLen+i)/len(unit)+1)[:padLen+i]
-			js := fmt.Sprintf(`{"c19id":%d,"svc":%q,"msg":%q,"pad":%q}`, i, svc, msg, pad)
+			// two fields with non-ASCII names: their GELF names are _caf- and _------ (specs/GelfFieldName.tla)
+			js := fmt.Sprintf(`{"c19id":%d,"svc":%q,"msg":%q,"café":"c%d","сервис":"s%d","pad":%q}`, i, svc, msg, i, i, pad)
 			payload += len(js)
 			root := insaneJSON.Spawn()
 			if err := root.DecodeString(js); err != nil {
@@ -215,7 +217,7 @@ func TestVerifC19GelfStream(t *testing.T) {
 				res.Frames++
 				v := c19gsViolation{Round: round, Conn: ci, Frame: fi, OnRetry: ci > 0, Text: c19gsClip(frame)}
 				var m map[string]interface{}
-				if !json.Valid(frame) || json.Unmarshal(frame, &m) != nil {
+				if !utf8.Valid(frame) || !json.Valid(frame) || json.Unmarshal(frame, &m) != nil {
 					v.Kind = "gelf_stream_frame_not_json"
 					add(v)
 					continue
@@ -223,7 +225,8 @@ func TestVerifC19GelfStream(t *testing.T) {
 				_, v.DoublePrefixed = m["__c19id"]
 				idf, ok := m["_c19id"].(float64)
 				w, known := want[int(idf)]
-				if !ok || !known || m["version"] != "1.1" || m["host"] != w[0] || m["short_message"] != w[1] {
+				if !ok || !known || m["version"] != "1.1" || m["host"] != w[0] || m["short_message"] != w[1] ||
+					m["_caf-"] != fmt.Sprintf("c%d", int(idf)) || m["_------"] != fmt.Sprintf("s%d", int(idf)) {
 					v.Kind = "gelf_stream_frame_not_the_event"
 					keys := make([]string, 0, len(m))
 					for k := range m {
